@@ -45,9 +45,11 @@ Definition expected_error (sc : script) : option (bytes * option (bytes * option
 (* codes: 1 the handlers invoked by the service are not exactly the one the property names
           2 the invoked handler saw data that differ from what was sent / routed
           3 nothing invocable, but the response is not the listed error (or there is one for access)
-          4 handler outcome (missing reply, panic, Error call) mapped to the wrong response *)
+          4 handler outcome (missing reply, panic, Error call) mapped to the wrong response
+   Concurrent cases are judged like the others: [g_pubs] then holds the reply subject's
+   messages only, which is all these checks look at. *)
 Definition viol_case (c : rcase) : list N :=
-  if rc_conc c || is_nil (ms_reply (rc_msg c)) then [] else
+  if is_nil (ms_reply (rc_msg c)) then [] else
   match rc_parts c with
   | None => []
   | Some (rt, rn, me) =>
